@@ -58,6 +58,34 @@ def oracle(c, d, kind, im):
     return None
 
 
+TEXT_ENVS = ['subequations', 'center', 'quote', 'quotation', 'abstract', 'minipage',
+             'figure', 'table', 'flushleft', 'flushright', 'description', 'itemize',
+             'enumerate', 'proof', 'titlepage', 'frame', 'multicols', 'otherlanguage',
+             'thebibliography', 'verse', 'small', 'appendix']
+
+
+def text_env_stream(res):
+    """environments whose body LaTeX typesets as text: an undeclared macro in
+    the body is used in text and has to be listed, with every package set"""
+    for env in TEXT_ENVS:
+        arg = '{german}' if env == 'otherlanguage' else ('{9}' if env == 'thebibliography' else '')
+        tex = ('Start \\begin{%s}%s Text \\unkenva here\n\\begin{equation} a = \\unkmath \\end{equation}\n'
+               'more \\unkenvb text\n\\end{%s} end \\unkenvc.\n' % (env, arg, env))
+        for pack in ('*', '', 'amsmath', 'amsmath,amsthm,babel'):
+            c = parsecase.T2T(tex, lang='en', pack=pack, unkn=True, files={})
+            im = parsecase.run_t2t(c)
+            res.count('text-envs', c.key())
+            if im[0] != 'OK':
+                continue
+            names = [n for n in im[1][1].split('\n') if n]
+            want = ['\\unkenva', '\\unkenvb', '\\unkenvc']
+            got = [n for n in names if n in want]
+            if got != want or '\\unkmath' in names:
+                res.failures.append(('c19-env:%s:%s' % (env, pack), c.json(),
+                                     'environment %s (packages %r): names used in its text %r, '
+                                     'listed %r' % (env, pack, want, names)))
+
+
 def repl_stream(res):
     """a replacement list never rewrites the list of names"""
     from yalafi import tex2txt
@@ -115,6 +143,7 @@ def run(tier, seed, build, res):
         universe.run(cases[i:i + 2000], res, 'unknowns', project, oracle,
                      sample_rule=lambda c, im: bool(im[1][1].strip()))
     repl_stream(res)
+    text_env_stream(res)
     shell_stream(rng, res, 3)
 
 
